@@ -94,6 +94,38 @@ func allocContent(al *ssa.Alloc, depth int, seen map[ssa.Value]bool) Root {
 	return worst
 }
 
+// structFieldContent: the worst root among what field f of the local struct
+// cell can hold — values stored into that field, and the same field of whole
+// struct values copied into the cell.
+func structFieldContent(al *ssa.Alloc, f int, depth int, seen map[ssa.Value]bool) Root {
+	worst := Root{Kind: Local, Val: al}
+	if al.Referrers() == nil {
+		return worst
+	}
+	for _, ref := range *al.Referrers() {
+		switch x := ref.(type) {
+		case *ssa.Store:
+			if x.Addr == ssa.Value(al) {
+				if r := rootOf(x.Val, depth+1, seen); r.Kind > worst.Kind {
+					worst = r
+				}
+			}
+		case *ssa.FieldAddr:
+			if x.Field != f || x.Referrers() == nil {
+				continue
+			}
+			for _, u := range *x.Referrers() {
+				if st, ok := u.(*ssa.Store); ok && st.Addr == ssa.Value(x) {
+					if r := rootOf(st.Val, depth+1, seen); r.Kind > worst.Kind {
+						worst = r
+					}
+				}
+			}
+		}
+	}
+	return worst
+}
+
 func rootOf(v ssa.Value, depth int, seen map[ssa.Value]bool) Root {
 	deep := false
 	ret := func(r Root) Root {
@@ -147,6 +179,13 @@ func rootOf(v ssa.Value, depth int, seen map[ssa.Value]bool) Root {
 			// the variable refers to
 			if al, ok := x.X.(*ssa.Alloc); ok && isRefType(x.Type()) {
 				return allocContent(al, depth, seen)
+			}
+			// a reference loaded out of a field of a local struct variable (a spilled value receiver or
+			// parameter): what the variable was filled from decides where the write lands
+			if fa, ok := x.X.(*ssa.FieldAddr); ok && isRefType(x.Type()) {
+				if al, ok := fa.X.(*ssa.Alloc); ok {
+					return structFieldContent(al, fa.Field, depth, seen)
+				}
 			}
 			deep = true
 			v = x.X
